@@ -25,6 +25,13 @@ from mindsdb_sql.parser.dialects.mindsdb.finetune_predictor import FinetunePredi
 from mindsdb_sql.parser.logger import ParserLogger
 from mindsdb_sql.parser.utils import ensure_select_keyword_order, JoinType, tokens_to_string
 
+def quoted_identifier(value):
+    # a quoted name is one part: dots inside the quotes do not split it
+    if value == '':
+        raise ParsingException('Empty identifier')
+    return Identifier(parts=[value])
+
+
 all_tokens_list = MindsDBLexer.tokens.copy()
 all_tokens_list.remove('RPAREN')
 all_tokens_list.remove('LPAREN')
@@ -1231,7 +1238,7 @@ class MindsDBParser(Parser):
         if hasattr(p, 'identifier'):
             entity.alias = p.identifier
         if hasattr(p, 'dquote_string'):
-            entity.alias = Identifier(p.dquote_string)
+            entity.alias = quoted_identifier(p.dquote_string)
         return entity
 
     # native query
@@ -1315,9 +1322,9 @@ class MindsDBParser(Parser):
         # if col.alias:
         #     raise ParsingException(f'Attempt to provide two aliases for {str(col)}')
         if hasattr(p, 'dquote_string'):
-            alias = Identifier(p.dquote_string)
+            alias = quoted_identifier(p.dquote_string)
         elif hasattr(p, 'quote_string'):
-            alias = Identifier(p.quote_string)
+            alias = quoted_identifier(p.quote_string)
         else:
             alias = p.identifier
         col.alias = alias
@@ -1744,6 +1751,8 @@ class MindsDBParser(Parser):
     @_('id', 'dquote_string')
     def identifier(self, p):
         value = p[0]
+        if hasattr(p, 'dquote_string'):
+            return quoted_identifier(value)
         return Identifier.from_path_str(value)
 
     @_('PARAMETER')
